@@ -5,6 +5,7 @@
 package stubs
 
 import (
+	"time"
 	"fmt"
 	"reflect"
 
@@ -133,7 +134,31 @@ func init() {
 }
 
 // call invokes the target with flattened arguments (fixed..., variadic elements...)
+// Stuck is the panic value reported for a call of a stubbed target that does not come back: the matching code of a stub
+// takes microseconds, so a call that has not returned after 20 seconds is blocked (e.g. on a lock a recovered panic left held).
+// The bound is a liveness bound, three orders of magnitude above any observed duration, not a performance expectation.
+const Stuck = "the call did not return within 20s (blocked inside the stub)"
+
+// call runs callNow on another goroutine and waits for it
 func (t *target) call(recvN int, flat []reflect.Value) (res []reflect.Value, pv interface{}) {
+	type out struct {
+		res []reflect.Value
+		pv  interface{}
+	}
+	ch := make(chan out, 1)
+	go func() {
+		r, p := t.callNow(recvN, flat)
+		ch <- out{r, p}
+	}()
+	select {
+	case o := <-ch:
+		return o.res, o.pv
+	case <-time.After(20 * time.Second):
+		return nil, Stuck
+	}
+}
+
+func (t *target) callNow(recvN int, flat []reflect.Value) (res []reflect.Value, pv interface{}) {
 	defer func() { pv = recover() }()
 	if t.iface != "" {
 		// a compiled interface method call on the mocked variable
